@@ -175,6 +175,16 @@ def spec_call(ex, st, e, cx, k):
         vars_, heap_ = st.snaps['old']
         al = heap_.get('alloc', ex.heap_get(st.copy(heap={}), 'alloc', z3.ArraySort(z3.IntSort(), z3.BoolSort())))
         return k(st, SV(BOOL, z3.Not(z3.Select(al, v.z))))
+    if nm in ('typeis_union_ref', 'union_is_int', 'union_ref', 'union_int'):
+        v = ex.pure(st, e.args[0], cx)
+        U = T.union_datatype()
+        if nm == 'typeis_union_ref':
+            return k(st, SV(BOOL, U.is_UR(v.z)))
+        if nm == 'union_is_int':
+            return k(st, SV(BOOL, U.is_UI(v.z)))
+        if nm == 'union_ref':
+            return k(st, SV(T.ref(v.ty.args[0]), U.ur(v.z)))
+        return k(st, SV(INT, U.ui(v.z)))
     if nm == 'fld':
         # fld('Class.field'): the heap component of that field, as a math array  ref -> value
         cname, fname = e.args[0].value.split('.')
@@ -189,12 +199,18 @@ def spec_call(ex, st, e, cx, k):
         tys = ast.literal_eval(kws['types']) if 'types' in kws else {}
         nm_ = lam.args.args[0].arg
         ty = ex.tenv.parse(tys.get(nm_, 'int'))
-        bv = SV(ty, z3.Const(f'{nm_}!lam{ex.counter}', T.sort_of(ty)))
-        ex.counter += 1
+        bv = SV(ty, z3.Const(f'{nm_}!lamvar_{T.sort_name(T.sort_of(ty))}', T.sort_of(ty)))
         sub = cx_with_vars(cx, {nm_: bv})
         vars2 = {a: b for a, b in st.vars.items() if a != nm_}
         body = ex.pure(st.copy(vars=vars2), lam.body, sub)
-        return k(st, SV(T.Ty('arr', body.ty), z3.Lambda([bv.z], body.z)))
+        # a named array constant with its pointwise definition as an (instantiable) axiom; identical bodies share it
+        key = body.z.get_id()
+        if key not in ex._lam_cache:
+            ex.counter += 1
+            arr = z3.Const(f'lam!{ex.counter}', z3.ArraySort(T.sort_of(ty), T.sort_of(body.ty)))
+            ex._lam_cache[key] = (arr, body.z)
+            ex.global_axioms.append(z3.ForAll([bv.z], z3.Select(arr, bv.z) == body.z, patterns=[z3.Select(arr, bv.z)]))
+        return k(st, SV(T.Ty('arr', body.ty), ex._lam_cache[key][0]))
     if nm == 'tb_byte':
         u, n_, little, j = [ex.pure(st, x, cx) for x in e.args]
         tb = ex.uf('tb_byte', z3.IntSort(), z3.IntSort(), z3.BoolSort(), z3.IntSort(), z3.IntSort())
@@ -509,7 +525,7 @@ def call_with_contract(ex, st, fi, c, args, kwargs, cx, node, k):
         pt = ptypes.get(n)
         if pt is None:
             raise VCError(f'parameter {n} of {fi.key} has no usable type (contract params=...)')
-        vars_[n] = ex.coerce(v, pt, f'argument {n} of {fi.key}')
+        vars_[n] = ex.coerce_chk(st, cx, node, v, pt, f'argument {n} of {fi.key}')
     # ghost arguments are existential at call sites: not supported yet
     ccx = Cx(fi, spec=True, contract=c, label=cx.label)
     ccx.root = cx.root
@@ -621,6 +637,18 @@ def method_call(ex, st, obj, mname, args, kwargs, cx, node, k):
     if t.kind == 'opt' and T.is_reflike(t.args[0]):
         obj = SV(t.args[0], obj.z)
         t = obj.ty
+    if t.kind == 'opt':
+        dt = T.sort_of(t)
+        inner = SV(t.args[0], dt.val(obj.z))
+        return ex.guard_raise(st, cx, dt.is_none(obj.z), 'AttributeError', node,
+                              lambda s: method_call(ex, s, inner, mname, args, kwargs, cx, node, k),
+                              why=f'{ast.unparse(node)}: receiver may be None')
+    if t.kind == 'union' and t.args:
+        U = T.union_datatype()
+        inner = SV(T.ref(t.args[0]), U.ur(obj.z))
+        return ex.guard_raise(st, cx, z3.Not(ex.isinstance_cond(obj, t.args[0])), 'AttributeError', node,
+                              lambda s: method_call(ex, s, inner, mname, args, kwargs, cx, node, k),
+                              why='method of a non-object')
     if t.kind == 'ref':
         cname = t.args[0]
         ov = ex.repo.overrides(cname, mname)
